@@ -2,10 +2,12 @@ package internal
 
 import (
 	"context"
+	"fmt"
 	"github.com/markusressel/fan2go/internal/configuration"
 	"github.com/markusressel/fan2go/internal/sensors"
 	"github.com/markusressel/fan2go/internal/ui"
 	"github.com/markusressel/fan2go/internal/util"
+	"math"
 	"time"
 )
 
@@ -46,6 +48,10 @@ func updateSensor(s sensors.Sensor) (err error) {
 	value, err := s.GetValue()
 	if err != nil {
 		return err
+	}
+	if math.IsNaN(value) || math.IsInf(value, 0) {
+		// a single NaN/Inf would poison the moving average forever
+		return fmt.Errorf("sensor %s: ignoring non-finite value %v", s.GetId(), value)
 	}
 
 	var n = configuration.CurrentConfig.TempRollingWindowSize
